@@ -111,6 +111,7 @@ pub struct QDesc {
     pub iter: fn(&mut Wa, &mut Ctx),
     pub iterb: fn(&Wa, &mut Ctx),
     pub iterd: fn(&mut Wa, &mut Ctx),
+    pub iterds: fn(&mut Wa, &mut Ctx),
     pub find_any: fn(&mut Wa, EntityAny, &mut Ctx) -> Option<()>,
     pub find_dirany: fn(&mut Wa, EntityDirectAny, &mut Ctx) -> Option<()>,
     pub find_ent: fn(&mut Wa, usize, EntityAny, &mut Ctx) -> Option<()>,
@@ -133,6 +134,10 @@ macro_rules! defq {
             }
             pub fn iterd(w: &mut Wa, $ctx: &mut Ctx) {
                 ecs_iter_destroy!(w, |$($params)*| { $ctx.begin(); $body; $ctx.step4() });
+            }
+            /// ecs_iter_destroy! with a closure whose return type is plain `EcsStep`
+            pub fn iterds(w: &mut Wa, $ctx: &mut Ctx) {
+                ecs_iter_destroy!(w, |$($params)*| { $ctx.begin(); $body; $ctx.step() });
             }
             pub fn find_any(w: &mut Wa, k: EntityAny, $ctx: &mut Ctx) -> Option<()> {
                 ecs_find!(w, k, |$($params)*| { $ctx.begin(); $body; $ctx.unit() })
@@ -172,7 +177,7 @@ macro_rules! defq {
             }
             pub const DESC: QDesc = QDesc {
                 name: stringify!($name), params: $desc,
-                iter, iterb, iterd, find_any, find_dirany, find_ent, find_dir,
+                iter, iterb, iterd, iterds, find_any, find_dirany, find_ent, find_dir,
                 findb_any, findb_dirany, findb_ent, findb_dir,
             };
         }
